@@ -188,6 +188,16 @@ pub fn run(args: &Args, rep: &mut Report) {
                         other => fail(rep, "from_naive", format!("ExtendedTime::from({with_s}) = {other:?}, expected {t:?}"), json!({"op":"from_naive","time":with_s.to_string()})),
                     }
                 }
+                // every sub-second part chrono can represent, including its leap-second form
+                // (second 59 with nanoseconds >= 1e9): the clock reading is still hh:mm
+                for (s, ns) in [(0u32, 1u32), (0, 999_999_999), (30, 500_000_000), (59, 999_999_999), (59, 1_000_000_000), (59, 1_500_000_000), (59, 1_999_999_999)] {
+                    let with_ns = NaiveTime::from_hms_nano_opt(nt.hour(), nt.minute(), s, ns).unwrap();
+                    match guarded(|| ExtendedTime::from(with_ns)) {
+                        Ok(back) if back == *t => {}
+                        other => fail(rep, "from_naive", format!("ExtendedTime::from({with_ns}) = {other:?}, expected {t:?}"), json!({"op":"from_naive","time":with_ns.to_string()})),
+                    }
+                    rep.count("subsecond_clock_times_converted");
+                }
                 rep.count("clock_times_converted");
             }
             Err(()) => {
